@@ -61,8 +61,11 @@ static int alg_degree(const lp_value_t* v);
 /* the same number as T[i], represented through a different (reducible) defining polynomial */
 static void add_alias(int i) {
   if (T[i].v.type != LP_VALUE_ALGEBRAIC || !T[i].v.value.a.f || nt >= MAXT - 4) return;
-  long extra[3] = { 3, 1, 1 };
-  lp_upolynomial_t* e = lp_upolynomial_construct_from_long(lp_Z, 2, extra);
+  /* cofactors of either sign on the pool's range (|x| < 7): the cached end-point signs of the reducible polynomial and of the
+     gcd that an equal comparison installs then differ */
+  static const long extras[][4] = { {2, 3, 1, 1}, {1, -7, 1}, {1, 7, 1}, {2, -50, 0, 1}, {2, -3, -1, -1}, {1, 7, -1} };
+  const long* ex = extras[rnd(6)];
+  lp_upolynomial_t* e = lp_upolynomial_construct_from_long(lp_Z, ex[0], ex + 1);
   lp_upolynomial_t* g = lp_upolynomial_mul(T[i].v.value.a.f, e);
   size_t d = lp_upolynomial_degree(g), n = 0;
   lp_algebraic_number_t* roots = (lp_algebraic_number_t*)malloc((d + 1) * sizeof(lp_algebraic_number_t));
